@@ -1,44 +1,70 @@
 #!/usr/bin/env python3
-"""Re-run every seeded change (seeded/<id>/patch.diff) against the CURRENT /repo HEAD and the current checks:
-scratch worktree, apply, repository suite, demo, quick check of the property it breaks.  Updates meta.json and INDEX."""
+"""tools/reverify_seeds.py [--fast] [--workers N] [ids...]
+Re-run every seeded change (seeded/<id>/patch.diff) against the CURRENT /repo HEAD and the current checks:
+scratch worktree, apply, repository suite, demo, quick check of the property it breaks (plus the other checks recorded
+in its meta.json).  --fast skips suite and demo for changes already confirmed against the same /repo commit (only the
+checks changed since).  Updates meta.json and INDEX."""
 import glob, json, os, re, shutil, subprocess, sys, tempfile
+from concurrent.futures import ThreadPoolExecutor
 V = os.path.dirname(os.path.dirname(os.path.abspath(__file__)))
 def sh(cmd, **kw): return subprocess.run(cmd, shell=True, capture_output=True, text=True, **kw)
-only = sys.argv[1:]
-bad = 0
-for d in sorted(glob.glob(os.path.join(V, 'seeded', '*'))):
-    if not os.path.isdir(d): continue
+args = sys.argv[1:]
+fast = '--fast' in args
+workers = 1
+if '--workers' in args:
+    workers = int(args[args.index('--workers') + 1])
+only = [a for a in args if not a.startswith('--') and not a.isdigit()]
+head = sh('git -C /repo rev-parse --short HEAD').stdout.strip()
+nproc = max(2, 16 // workers)
+
+
+def one(d):
     sid = os.path.basename(d)
-    if only and sid not in only: continue
     meta = json.load(open(os.path.join(d, 'meta.json')))
     wt = tempfile.mkdtemp(prefix='reseed_', dir='/tmp'); os.rmdir(wt)
     sh('git -C /repo worktree add --detach -f %s HEAD' % wt)
     try:
         env = dict(os.environ, PYTHONPATH=wt)
-        clean = sh('/venv/bin/python %s' % os.path.join(d, 'demo.py'), env=env, cwd=wt, timeout=900).returncode
+        skip = fast and meta.get('reverified_against_repo_commit', meta.get('confirmed_against_repo_commit')) == head
+        clean = suite = demo = None
+        if not skip:
+            clean = sh('/venv/bin/python %s' % os.path.join(d, 'demo.py'), env=env, cwd=wt, timeout=900).returncode
         a = sh('git -C %s apply %s' % (wt, os.path.join(d, 'patch.diff')))
         if a.returncode:
-            print(sid, 'PATCH NO LONGER APPLIES'); bad += 1; meta['applies_to_head'] = False
-            json.dump(meta, open(os.path.join(d, 'meta.json'), 'w'), indent=1); continue
-        t = sh('cd %s && /venv/bin/python -m pytest -q -p no:cacheprovider --timeout=900 2>&1 | tail -3' % wt, env=env)
-        m = re.search(r'(\d+) failed, (\d+) passed', t.stdout); suite = m.group(0) if m else '?'
-        demo = sh('/venv/bin/python %s' % os.path.join(d, 'demo.py'), env=env, cwd=wt, timeout=900).returncode
+            meta['applies_to_head'] = False
+            json.dump(meta, open(os.path.join(d, 'meta.json'), 'w'), indent=1)
+            return sid, 'PATCH NO LONGER APPLIES', True
+        if not skip:
+            t = sh('cd %s && /venv/bin/python -m pytest -q -p no:cacheprovider --timeout=900 2>&1 | tail -3' % wt, env=env)
+            m = re.search(r'(\d+) failed, (\d+) passed', t.stdout); suite = m.group(0) if m else '?'
+            demo = sh('/venv/bin/python %s' % os.path.join(d, 'demo.py'), env=env, cwd=wt, timeout=900).returncode
         props = list(meta['detected_by'].keys())
         det, kinds = {}, {}
         for p in props:
             e = tempfile.mkdtemp(prefix='seedev_', dir='/tmp')
-            c = sh('./check %s --tier quick' % p, cwd=V, env=dict(os.environ, VERIF_REPO=wt, VERIF_EVIDENCE_DIR=e, VERIF_REPLAY_DIR=e))
+            c = sh('./check %s --tier quick' % p, cwd=V, env=dict(os.environ, VERIF_REPO=wt, VERIF_EVIDENCE_DIR=e, VERIF_REPLAY_DIR=e,
+                                                                VERIF_NPROC=str(nproc)))
             det[p] = (c.returncode == 1 and 'VIOLATION property=' in c.stdout)
             kinds[p] = sorted(set(re.findall(r'kind=(\S+)', c.stdout)))[:6]
             shutil.rmtree(e, ignore_errors=True)
-        head = sh('git -C /repo rev-parse --short HEAD').stdout.strip()
-        meta.update({'detected_by': det, 'violation_kinds': kinds, 'applies_to_head': True, 'reverified_against_repo_commit': head,
-                     'reverified': {'demo_clean_exit': clean, 'suite_with_patch': suite, 'demo_patched_exit': demo}})
+        meta.update({'detected_by': det, 'violation_kinds': kinds, 'applies_to_head': True})
+        if not skip:
+            meta.update({'reverified_against_repo_commit': head,
+                         'reverified': {'demo_clean_exit': clean, 'suite_with_patch': suite, 'demo_patched_exit': demo}})
         json.dump(meta, open(os.path.join(d, 'meta.json'), 'w'), indent=1)
         okp = det.get(meta['breaks_property'])
-        print(sid, 'suite', suite, 'demo', clean, demo, 'caught' if okp else 'NOT CAUGHT', det)
-        if not okp or suite != '1 failed, 221 passed' or clean != 0 or demo != 1: bad += 1
+        problem = (not okp) or (not skip and (suite != '1 failed, 221 passed' or clean != 0 or demo != 1))
+        return sid, 'suite %s demo %s %s %s %s' % (suite, clean, demo, 'caught' if okp else 'NOT CAUGHT', det), problem
     finally:
         sh('git -C /repo worktree remove --force %s' % wt)
+
+
+dirs = [d for d in sorted(glob.glob(os.path.join(V, 'seeded', '*'))) if os.path.isdir(d)
+        and (not only or os.path.basename(d) in only)]
+bad = 0
+with ThreadPoolExecutor(max_workers=workers) as ex:
+    for sid, msg, problem in ex.map(one, dirs):
+        print(sid, msg, flush=True)
+        bad += bool(problem)
 sh('python3 %s' % os.path.join(V, 'tools', 'mkindex.py'))
 print('problems:', bad)
